@@ -86,7 +86,60 @@ func drawIndex(t *rapid.T, n int, label string) int {
 	return int(mix64(x) % uint64(n))
 }
 
+// drawStructured: n octets that are themselves well structured, the way the contents of list-valued IEs are (an
+// NSSAI is a chain of length-prefixed S-NSSAIs of 1, 2, 4, 5 or 8 octets; TAI lists, PLMN lists, QoS rules and
+// container lists are chains of LV / TLV / fixed-size entries). Uniform octets practically never form such a chain,
+// so a codec that looks INTO a value it should carry opaquely is only seen with these.
+func drawStructured(t *rapid.T, n int, label string) []byte {
+	out := make([]byte, 0, n)
+	kind := rapid.IntRange(0, 3).Draw(t, label+"_chain")
+	seed := rapid.Uint64().Draw(t, label+"_chain_seed")
+	fill := expand(seed, n)
+	lens := []int{1, 2, 4, 5, 8}
+	for i := 0; len(out) < n; i++ {
+		rest := n - len(out)
+		x := mix64(seed + uint64(i))
+		switch kind {
+		case 0, 1: // LV chain; kind 0 with the S-NSSAI lengths only (and as many entries as fit), kind 1 with any small length
+			l := lens[int(x%5)]
+			if kind == 0 && x>>8&3 != 0 {
+				l = 1
+			}
+			if kind == 1 {
+				l = int(x % 12)
+			}
+			if l > rest-1 {
+				l = rest - 1
+			}
+			out = append(out, byte(l))
+			out = append(out, fill[len(out):len(out)+l]...)
+		case 2: // TLV chain
+			if rest == 1 {
+				out = append(out, byte(x))
+				break
+			}
+			l := int(x >> 8 % 10)
+			if l > rest-2 {
+				l = rest - 2
+			}
+			out = append(out, byte(x), byte(l))
+			out = append(out, fill[len(out):len(out)+l]...)
+		default: // fixed-size records of 3..7 octets, the first octet counting them down
+			l := 3 + int(seed%5)
+			if l > rest {
+				l = rest
+			}
+			rec := append([]byte{byte(rest / l)}, fill[len(out)+1:len(out)+l]...)
+			out = append(out, rec[:l]...)
+		}
+	}
+	return out[:n]
+}
+
 func drawBytes(t *rapid.T, n int, label string) []byte {
+	if n >= 4 && rapid.IntRange(0, 7).Draw(t, label+"_structured") == 3 {
+		return drawStructured(t, n, label)
+	}
 	if n <= 24 {
 		return rapid.SliceOfN(rapid.Byte(), n, n).Draw(t, label)
 	}
